@@ -10,6 +10,7 @@ package watchers
 //@   checks conv
 //@   replay checkThreshold
 //@   requires !(minSpaceRequired >= 17179869184.0)
+//@   modifies nothing
 //@   ensures [exact] (result != nil) == refuse(total, free, minSpaceRequired) // C18: refuses exactly when free space on the job's volume is below the threshold
 //@ pred refuse(total uint64, free uint64, min float64) = ite(min > 0, free < ceilu64(min * 1073741824.0), ite(total <= 274877906944, free < (25*total+127)/128, free < 53687091200))
 
@@ -18,3 +19,27 @@ package watchers
 //@   mode bv fp
 //@   requires f1 <= f2 && refuse(total, f2, min)
 //@   ensures [mono] refuse(total, f1, min) // C18: with the same volume and setting, more free space never turns an accept into a refusal
+
+// CheckDiskUsage: the decision about a path is checkThreshold's decision on the volume figures
+// read for it (total and available blocks times the block size, 64-bit wrap-around included)
+// and the operator's setting - nothing else decides.
+//@ func CheckDiskUsage
+//@   property C18
+//@   mode bv fp
+//@   requires config.config != nil && !(config.config.MinSpaceRequired >= 17179869184.0)
+//@   ensures [decision] (result != nil) == refuse(stat.Blocks * uint64(stat.Bsize), stat.Bavail * uint64(stat.Bsize), config.config.MinSpaceRequired) // C18: refuses to start ... exactly when free space on the job's volume is below the threshold
+
+// WatchDiskSpace: the pause state machine. The watcher pauses the pipeline only on a tick whose
+// check failed while it had not paused, and resumes it only on a tick whose check passed while
+// it had paused; pauses and resumes alternate (ghost counters).
+//@ func WatchDiskSpace
+//@   property C18
+//@   attr assume-pre CheckDiskUsage
+//@   attr hooked @C18 Pause,Resume
+//@   local nPause int = 0
+//@   local nResume int = 0
+//@   after Pause(?)#1: nPause = nPause + 1
+//@   after Resume()#1: nResume = nResume + 1
+//@   assert Pause(?)#1: [only-when-low] err != nil && !paused // C18: pauses while running exactly when free space ... is below the threshold
+//@   assert Resume()#1: [only-when-enough] err == nil && paused // C18: resumes only once a check has passed again
+//@   loop for invariant [alternate] nPause == nResume + ite(paused, 1, 0) // the pipeline is paused by the watcher exactly while `paused`
